@@ -86,6 +86,17 @@ func (pConn *PFCPConn) handleSessionEstablishmentRequest(msg message.Message) (m
 			ie.CauseNoResourcesAvailable)
 	}
 
+	// a request that is refused from here on has to give back the session it had begun
+	errAbortReply := func(err error, cause uint8) (message.Message, error) {
+		if releaseErr := releaseAllocatedIPs(upf.ippool, &session); releaseErr != nil {
+			logger.PfcpLog.Errorln("failed to release the UE IP address of session", session.localSEID, releaseErr)
+		}
+
+		pConn.RemoveSession(session)
+
+		return errProcessReply(err, cause)
+	}
+
 	addPDRs := make([]pdr, 0, MaxItems)
 	addFARs := make([]far, 0, MaxItems)
 	addQERs := make([]qer, 0, MaxItems)
@@ -93,14 +104,19 @@ func (pConn *PFCPConn) handleSessionEstablishmentRequest(msg message.Message) (m
 	for _, cPDR := range sereq.CreatePDR {
 		var p pdr
 		if err = p.parsePDR(cPDR, session.localSEID, pConn.appPFDs, upf.ippool); err != nil {
-			return errProcessReply(err, ie.CauseRequestRejected)
+			if p.allocIPFlag {
+				// the address was taken for this very PDR, which is not part of the session yet
+				_ = upf.ippool.DeallocIP(session.localSEID)
+			}
+
+			return errAbortReply(err, ie.CauseRequestRejected)
 		}
 
 		if p.UPAllocateFteid {
 			var fteid uint32
 			fteid, err = pConn.upf.fteidGenerator.Allocate()
 			if err != nil {
-				return errProcessReply(err, ie.CauseNoResourcesAvailable)
+				return errAbortReply(err, ie.CauseNoResourcesAvailable)
 			}
 			p.tunnelTEID = fteid
 			p.tunnelTEIDMask = 0xFFFFFFFF
@@ -116,7 +132,7 @@ func (pConn *PFCPConn) handleSessionEstablishmentRequest(msg message.Message) (m
 	for _, cFAR := range sereq.CreateFAR {
 		var f far
 		if err = f.parseFAR(cFAR, session.localSEID, upf, create); err != nil {
-			return errProcessReply(err, ie.CauseRequestRejected)
+			return errAbortReply(err, ie.CauseRequestRejected)
 		}
 
 		f.fseidIP = fseidIP
@@ -127,7 +143,7 @@ func (pConn *PFCPConn) handleSessionEstablishmentRequest(msg message.Message) (m
 	for _, cQER := range sereq.CreateQER {
 		var q qer
 		if err = q.parseQER(cQER, session.localSEID); err != nil {
-			return errProcessReply(err, ie.CauseRequestRejected)
+			return errAbortReply(err, ie.CauseRequestRejected)
 		}
 
 		q.fseidIP = fseidIP
